@@ -44,11 +44,15 @@ func (p *parser) cfNodes(depth int, errLeaves bool) []*hdNode {
 			ns = append(ns, &hdNode{status: p.nat(), isErr: true})
 		case "h":
 			pt := p.nat()
-			if pt > 6 || depth == 0 {
+			if pt > 7 || depth == 0 {
 				p.bad = true
 				return nil
 			}
-			ns = append(ns, &hdNode{handle: true, path: pt - 1, body: p.cfNodes(depth-1, errLeaves)})
+			path := pt - 1
+			if pt == 7 {
+				path = 100 // handle_path /a/*
+			}
+			ns = append(ns, &hdNode{handle: true, path: path, body: p.cfNodes(depth-1, errLeaves)})
 		default:
 			p.bad = true
 		}
@@ -63,6 +67,24 @@ func hdBodyValid(ns []*hdNode) bool {
 		return false
 	}
 	seen := map[int]bool{}
+	plen := func(p int) int {
+		if p == 100 {
+			return 4
+		}
+		return pathLen[p]
+	}
+	for _, n := range ns {
+		if n.handle && n.path >= 0 {
+			if seen[n.path] {
+				return false
+			}
+			seen[n.path] = true
+		}
+	}
+	if seen[100] && (seen[2] || seen[5]) {
+		return false // handle_path /a/* next to /a/b or /a/c: their order is the adapter sort's business
+	}
+	seen = map[int]bool{}
 	for i, n := range ns {
 		if !n.handle {
 			lo := 200
@@ -82,7 +104,7 @@ func hdBodyValid(ns []*hdNode) bool {
 		}
 		if i > 0 {
 			prev := ns[i-1]
-			if prev.path < 0 || (n.path >= 0 && pathLen[prev.path] < pathLen[n.path]) {
+			if prev.path < 0 || (n.path >= 0 && plen(prev.path) < plen(n.path)) {
 				return false
 			}
 		}
@@ -99,7 +121,9 @@ func hdCaddyfile(b *strings.Builder, ns []*hdNode, ind string) {
 			fmt.Fprintf(b, "%s%s %d\n", ind, map[bool]string{false: "respond", true: "error"}[n.isErr], n.status)
 			continue
 		}
-		if n.path >= 0 {
+		if n.path == 100 {
+			fmt.Fprintf(b, "%shandle_path /a/* {\n", ind)
+		} else if n.path >= 0 {
 			fmt.Fprintf(b, "%shandle %s {\n", ind, paths[n.path])
 		} else {
 			fmt.Fprintf(b, "%shandle {\n", ind)
@@ -112,20 +136,18 @@ func hdCaddyfile(b *strings.Builder, ns []*hdNode, ind string) {
 // hdExpect reads the Caddyfile as written: of the handle blocks of one body only the first whose
 // matcher matches is evaluated; what it does not answer goes on to the body's respond, then up.
 func hdExpect(ns []*hdNode, p int) (status int, answered bool) {
-	taken := false
-	for _, n := range ns {
-		if !n.handle {
-			return n.status, true
-		}
-		if taken || (n.path >= 0 && n.path != p) {
-			continue
-		}
-		taken = true
-		if st, ok := hdExpect(n.body, p); ok {
-			return st, true
-		}
+	if k, st := cfEval(ns, &p); k == 1 {
+		return st, true
 	}
 	return 0, false
+}
+
+// nodeMatches: handle_path /a/* (100) matches /a/b and /a/c
+func nodeMatches(n *hdNode, p int) bool {
+	if n.path == 100 {
+		return p == 2 || p == 5
+	}
+	return n.path < 0 || n.path == p
 }
 
 type jsonRoute struct {
@@ -233,7 +255,11 @@ func runHD(line string, f []string) (o core.Outcome) {
 
 func (g *gen) hdBody(depth int) []*hdNode {
 	var ns []*hdNode
-	for _, p := range []int{2, 5, 1, 3, 4, 0} {
+	cands := []int{2, 5, 1, 3, 4, 0}
+	if g.rng.Chance(1, 3) {
+		cands = []int{100, 1, 3, 4, 0} // handle_path /a/* instead of /a/b and /a/c
+	}
+	for _, p := range cands {
 		if len(ns) < 3 && depth > 0 && g.rng.Chance(1, 4) {
 			ns = append(ns, &hdNode{handle: true, path: p, body: g.hdBody(depth - 1)})
 		}
@@ -253,7 +279,11 @@ func encHD(e *enc, ns []*hdNode) {
 	for _, n := range ns {
 		if n.handle {
 			e.w("h")
-			e.n(n.path + 1)
+			if n.path == 100 {
+				e.n(7)
+			} else {
+				e.n(n.path + 1)
+			}
 			encHD(e, n.body)
 		} else {
 			e.w("r")
@@ -280,7 +310,7 @@ type cfBlock struct {
 }
 
 // cfEval reads a body as written: 0 passed on, 1 answered with st, 2 failed with st.
-func cfEval(ns []*hdNode, p int) (kind, st int) {
+func cfEval(ns []*hdNode, p *int) (kind, st int) {
 	taken := false
 	for _, n := range ns {
 		if !n.handle {
@@ -289,10 +319,13 @@ func cfEval(ns []*hdNode, p int) (kind, st int) {
 			}
 			return 1, n.status
 		}
-		if taken || (n.path >= 0 && n.path != p) {
+		if taken || !nodeMatches(n, *p) {
 			continue
 		}
 		taken = true
+		if n.path == 100 {
+			*p = stripPath(*p) // handle_path strips the prefix; the path stays stripped afterwards
+		}
 		if k, st := cfEval(n.body, p); k != 0 {
 			return k, st
 		}
@@ -358,7 +391,7 @@ func runCF(line string, f []string) (o core.Outcome) {
 			break
 		}
 		// what the adapter's block sort looks at: does the block have routes, does its first route carry a matcher
-		first := len(b.body) > 0 && b.body[0].handle && b.body[0].path >= 0
+		first := len(b.body) > 0 && b.body[0].handle && b.body[0].path >= 0 // (handle_path included)
 		ebs = append(ebs, eb{sel, b.body, !sel.any || first, len(b.body) == 0})
 	}
 	for i := 1; i < len(ebs) && !verdictErr; i++ {
@@ -371,7 +404,8 @@ func runCF(line string, f []string) (o core.Outcome) {
 		}
 	}
 	want := "-"
-	if kind, st := cfEval(ns, p); kind == 1 {
+	pp := p
+	if kind, st := cfEval(ns, &pp); kind == 1 {
 		want = strconv.Itoa(st)
 	} else if kind == 2 {
 		want = strconv.Itoa(st) // nobody handles it: the error's status
@@ -380,7 +414,8 @@ func runCF(line string, f []string) (o core.Outcome) {
 			if !b.sel.selects(st) {
 				continue
 			}
-			k2, st2 := cfEval(b.body, p)
+			pe := p // the error routes see the original URI
+			k2, st2 := cfEval(b.body, &pe)
 			if k2 == 1 {
 				want = strconv.Itoa(st2)
 				o.Tags = append(o.Tags, "cf:error-route-answers")
@@ -500,7 +535,11 @@ func encCF(e *enc, ns []*hdNode) {
 		switch {
 		case n.handle:
 			e.w("h")
-			e.n(n.path + 1)
+			if n.path == 100 {
+				e.n(7)
+			} else {
+				e.n(n.path + 1)
+			}
 			encCF(e, n.body)
 		case n.isErr:
 			e.w("f")
